@@ -30,11 +30,21 @@ class Path:
         return [s[1] for s in self.steps if s[0] == "stmt"]
 
     def truth(self, text: str) -> Optional[bool]:
-        """Truth value of the atom with this normalised text on the path (last decision), None if never decided."""
+        """Truth value of the atom with this normalised text on the path (last decision), None if never decided.  An atom
+        decided in its complementary spelling (`a == b` for `a != b`, `a is b` for `a is not b`, `a > b` for `a <= b`, the
+        operands of == / != swapped) counts."""
+        want = canon_atom_text(text)
         val = None
         for s in self.steps:
-            if s[0] == "cond" and norm(s[1]) == text:
+            if s[0] != "cond":
+                continue
+            if norm(s[1]) == text:
                 val = s[2]
+                continue
+            if want is not None:
+                got = canon_atom(s[1])
+                if got is not None and got[0] == want[0]:
+                    val = s[2] if got[1] == want[1] else not s[2]
         return val
 
     def describe(self) -> str:
@@ -43,6 +53,32 @@ class Path:
             if s[0] == "cond":
                 out.append(("" if s[2] else "not ") + norm(s[1])[:60])
         return " & ".join(out) + f" -> {self.exit}"
+
+
+_COMPLEMENT = {ast.NotEq: ast.Eq, ast.IsNot: ast.Is, ast.NotIn: ast.In, ast.LtE: ast.Gt, ast.Lt: ast.GtE}
+
+
+def canon_atom(test: ast.AST) -> Optional[Tuple[str, bool]]:
+    """(text of the positive spelling, negated?) of a one-operator comparison; None for anything else."""
+    neg = False
+    while isinstance(test, ast.UnaryOp) and isinstance(test.op, ast.Not):
+        test, neg = test.operand, not neg
+    if not (isinstance(test, ast.Compare) and len(test.ops) == 1):
+        return None
+    op, left, right = test.ops[0], test.left, test.comparators[0]
+    if type(op) in _COMPLEMENT:
+        op, neg = _COMPLEMENT[type(op)](), not neg
+    lt, rt = norm(left), norm(right)
+    if isinstance(op, (ast.Eq, ast.Is)) and rt < lt:
+        lt, rt = rt, lt
+    return f"{lt} {type(op).__name__} {rt}", neg
+
+
+def canon_atom_text(text: str) -> Optional[Tuple[str, bool]]:
+    try:
+        return canon_atom(ast.parse(text, mode="eval").body)
+    except SyntaxError:
+        return None
 
 
 def _split_cond(test: ast.AST, want: bool) -> List[List[Tuple[ast.AST, bool]]]:
